@@ -174,10 +174,10 @@ Section ListOf.
         cbn [all2 map2l map fst] in *; auto; try contradiction.
       destruct Hi as [Hi1 Hi2]. split; [apply (r_inv_step HR); auto | apply IH; auto].
     - intros cs ss it rel i H. revert ss. induction H as [|c r Hc Hr IH]; intros ss Hi Hrel; destruct ss as [|s ss];
-        cbn [all2 all3 map2l map fst snd] in *; auto; try contradiction.
+        cbn [all2 all3 map2l map2r map fst snd] in *; auto; try contradiction.
       destruct Hi as [Hi1 Hi2].
       destruct (r_reexec HR c s it rel i Hc Hi1 Hrel) as [E Q]. cbn zeta in E, Q.
-      destruct (IH ss Hi2 Hrel) as [E' Q']. cbn zeta in E', Q'. cbn zeta. cbn [fst snd map map2l all2 all3]. auto.
+      destruct (IH ss Hi2 Hrel) as [E' Q']. cbn zeta in E', Q'. cbn zeta. cbn [fst snd map map2l map2r all2 all3]. auto.
     - intros cs ss ss' it rel rel' i H. revert ss ss'.
       induction H as [|c r Hc Hr IH]; intros ss ss' He Hrel Hrel'; destruct ss as [|s ss]; destruct ss' as [|s' ss'];
         cbn [all2 all3 map2l map fst snd] in *; auto; try contradiction.
